@@ -118,6 +118,7 @@ pub fn build_comb(c: Comb, srcs: &[Obs], pfx: &str, extra: &mut Extra) -> Obs {
     Comb::Concat => s0.concat(&rest),
     Comb::Zip => {
       // adapter: tuples are flattened, items labelled with the tuple ordinal
+      observables::defer(move || {
       let ctr = Arc::new(Mutex::new(0i32));
       s0.zip(&rest).flat_map(move |v: Vec<Sym>| {
         let b = {
@@ -126,6 +127,7 @@ pub fn build_comb(c: Comb, srcs: &[Obs], pfx: &str, extra: &mut Extra) -> Obs {
           *c
         };
         observables::from_iter(v.into_iter().map(move |x| x.with_tag(b)))
+      })
       })
     }
     Comb::CombineLatest => s0.combine_latest(&rest, |v: Vec<Sym>| {
@@ -143,16 +145,19 @@ pub fn build_comb(c: Comb, srcs: &[Obs], pfx: &str, extra: &mut Extra) -> Obs {
     Comb::SwitchOnNext => s0.switch_on_next(rest[0].clone()),
     Comb::FlatMap => {
       // k-th outer item selects inner source 1 + (k mod 2)
-      let ctr = Arc::new(Mutex::new(0usize));
       let inners = rest.clone();
-      s0.flat_map(move |_x: Sym| {
-        let k = {
-          let mut c = ctr.lock().unwrap();
-          let k = *c;
-          *c += 1;
-          k
-        };
-        inners[k % inners.len()].clone()
+      observables::defer(move || {
+        let ctr = Arc::new(Mutex::new(0usize));
+        let inners = inners.clone();
+        s0.flat_map(move |_x: Sym| {
+          let k = {
+            let mut c = ctr.lock().unwrap();
+            let k = *c;
+            *c += 1;
+            k
+          };
+          inners[k % inners.len()].clone()
+        })
       })
     }
     Comb::Retry => {
